@@ -405,7 +405,16 @@ def e2eCore (dim : Nat) (sizeScale vrel : Rat) (o : ROpts) (out : List String) :
         let D := W2.sub W1
         -- (a wrong gap ALONG the normal and a tangential slide on parallel features are different failures: only the
         --  second one is the recorded known finding of gjk::directional_distance)
-        if rabs (D.dot N1 - o.target) > gtol then s!"fail witness-gap-along-normal-is-not-target gap·n={D.dot N1} target={o.target}" else
+        -- (`wd a b`, appended by the harness: real point-query distances of the two witnesses to their OWN shapes at the time
+        --  of impact.  Witnesses that are points of their shapes but not a closest pair are what gjk::directional_distance
+        --  produces when it rebuilds them from a stale simplex; witnesses that are off their shapes are a different failure.)
+        let onShapes : Bool :=
+          match (((out.dropWhile (· ≠ "wd")).drop 1).take 2).filterMap FloatIO.ofHex? with
+          | [a, b] => FloatIO.isFinite a && FloatIO.isFinite b && rabs (q a) ≤ gtol && rabs (q b) ≤ gtol
+          | _ => false
+        if rabs (D.dot N1 - o.target) > gtol then
+          (if onShapes ∧ D.dot N1 > o.target then s!"fail witness-gap-along-normal-is-not-target[witnesses-on-their-shapes,not-a-closest-pair] gap·n={D.dot N1} target={o.target}"
+           else s!"fail witness-gap-along-normal-is-not-target gap·n={D.dot N1} target={o.target}") else
         if !vnear D (N1.smul o.target) gtol then s!"fail witnesses-not-target-apart-along-normal[tangential-slide] |gap|²={D.normSq}" else "pass"
       if bad toi then "fail nonfinite-toi" else
       if bad dt ∨ ds.any bad ∨ bad d0 then "skip distance-unsupported" else
@@ -478,8 +487,14 @@ def frameVerdict (o : ROpts) (out : List String) : String :=
 
 def e2eOracle (dim : Nat) (sizeScale vrel : Rat) (o : ROpts) (out : List String) : String :=
   let base := e2eCore dim sizeScale vrel o out
-  if base.startsWith "fail" then base else
   let b := bfVerdict sizeScale vrel o out
+  -- a wrong TIME (late / early / missed, by the distance samples) reported by a traversal that reproduces its own parts
+  -- exactly, while the same pair of parts cast from world poses gives another time: the primitive cast of that pair
+  -- depends on the frame it is evaluated in — that is the failure to name (the samples only show its consequence)
+  let timing := ["fail already-closer-than-target-at-toi", "fail earlier-contact", "fail still-apart-at-toi",
+                 "fail none-but-distance-below-target d="].any (fun (p : String) => base.startsWith p)
+  if base.startsWith "fail" ∧ timing ∧ b.startsWith "fail part-cast-depends-on-the-frame" then s!"{b} ({base.drop 5})" else
+  if base.startsWith "fail" then base else
   if b.startsWith "fail" then b else
   let f := frameVerdict o out
   if f.startsWith "fail" then f else base
